@@ -174,4 +174,15 @@ pub fn run(ctx: &mut Ctx) {
         }
         go!(*rng.pick(&["error", "info", "debug"]), &tags.join(","));
     }
+    // (5) long lines: one value whose escaped text runs past 64 KiB and 128 KiB, at every alignment of its escape sequences,
+    //     followed by further tags; and many medium-sized tags
+    for ch in ['"', '\\', '\u{1}', 'é', 'a', '\n'] {
+        for k in 0..6usize {
+            let count = if ch == 'a' { 70_000 } else { 34_000 };
+            let v: String = "a".repeat(k) + &ch.to_string().repeat(count);
+            go!("info", &format!("{}={},{}=i64:200,{}={}", name("msg"), sval(&v), name("code"), name("tail"), sval("end\"x")));
+        }
+    }
+    let many: Vec<String> = (0..900).map(|i| format!("{}={}", name(&format!("k{i}")), sval(&format!("{i}-{}", "v\"\\".repeat(30))))).collect();
+    go!("error", &many.join(","));
 }
